@@ -34,6 +34,8 @@ def strip_generics(path):
             # start-of-string, space, '(' , '&', ',' or another '<'
             prev = path[i - 1] if i > 0 else ''
             is_generic = (prev.isalnum() or prev == '_' or prev == '>' or path[max(0, i - 2):i] == '::')
+            if path.startswith('<impl ', i):
+                is_generic = False
             if depth > 0:
                 depth += 1
             elif is_generic:
